@@ -936,7 +936,7 @@ end rows
 
 /-- every key of reader `fn` in the GENERATED table is one of `allowed` -/
 def keysWithin (fn : String) (allowed : List String) : Bool :=
-  match Generated.Frame.groupByKeys.find? (·.1 == fn) with
+  match Generated.FrameKeys.groupByKeys.find? (·.1 == fn) with
   | some (_, ks) => ks.all allowed.contains
   | none => false
 
